@@ -185,6 +185,7 @@ pub struct Ctx {
     viol_keys: BTreeMap<String, u64>,
     budget_exhausted: bool,
     notes: Vec<String>,
+    last_checkpoint: f64,
 }
 
 impl Ctx {
@@ -196,7 +197,7 @@ impl Ctx {
             evals: 0, classes: BTreeMap::new(), nt_hashes: HashSet::new(), nt_evals: 0,
             samples: BTreeMap::new(), counters: BTreeMap::new(), maxima: BTreeMap::new(),
             sets: BTreeMap::new(), inconclusive: BTreeMap::new(), viol_count: 0,
-            viol_keys: BTreeMap::new(), budget_exhausted: false, notes: vec![],
+            viol_keys: BTreeMap::new(), budget_exhausted: false, notes: vec![], last_checkpoint: 0.0,
         }
     }
 
@@ -237,6 +238,10 @@ impl Ctx {
             let me: &mut Ctx = self;
             guarded(move || f(me, &mut rng))
         };
+        if self.replay.is_none() && self.elapsed() - self.last_checkpoint > 5.0 {
+            self.last_checkpoint = self.elapsed();
+            self.emit_stats("checkpoint", false);
+        }
         if let Err(p) = r {
             self.inconclusive(&format!("harness_panic:{}", p.site()));
             if self.notes.len() < 20 {
@@ -249,6 +254,8 @@ impl Ctx {
     /// the soft time budget (recorded, not a verdict).
     pub fn random_cases<F>(&mut self, kind: &str, n_total: u64, mut f: F)
     where F: FnMut(&mut Ctx, &mut Rng) {
+        if let Ok(only) = std::env::var("VH_ONLY") { if !kind.contains(&only) { return } } // debugging aid
+        let t0 = self.elapsed();
         for idx in 0..n_total {
             if self.replay.is_none() {
                 if !self.mine(idx) { continue }
@@ -257,6 +264,8 @@ impl Ctx {
             self.case(kind, idx, |c, r| f(c, r));
             if self.replay_done { break }
         }
+        let dt = self.elapsed() - t0;
+        self.count(&format!("ms_spent/{kind}"), (dt * 1000.0) as i64);
     }
 
     pub fn replaying(&self) -> bool { self.replay.is_some() }
@@ -325,12 +334,17 @@ impl Ctx {
         }
     }
 
-    pub fn finish(&mut self) {
+    pub fn finish(&mut self) { self.emit_stats("trailer", true) }
+
+    /// statistics line; "checkpoint" lines (every ~5 s) let the driver keep the counts of a shard that is
+    /// later killed by the watchdog, and tell it which case was running.
+    fn emit_stats(&mut self, kind: &str, with_hashes: bool) {
         let sets: BTreeMap<String, usize> = self.sets.iter().map(|(k, v)| (k.clone(), v.len())).collect();
-        let mut hashes: Vec<String> = self.nt_hashes.iter().take(400_000).map(|h| format!("{:x}", h)).collect();
+        let mut hashes: Vec<String> = if with_hashes { self.nt_hashes.iter().take(400_000).map(|h| format!("{:x}", h)).collect() } else { vec![] };
         hashes.sort();
         let line = json!({
-            "t": "trailer", "property": self.prop, "shard": self.shard, "nshards": self.nshards,
+            "t": kind, "nt_count": self.nt_hashes.len(),
+            "last_case": format!("{}#{}", self.cur_kind, self.cur_idx), "property": self.prop, "shard": self.shard, "nshards": self.nshards,
             "evaluations": self.evals, "nontrivial_evaluations": self.nt_evals,
             "nt_hashes": hashes,
             "classes": self.classes, "samples": self.samples, "counters": self.counters,
